@@ -2,12 +2,7 @@ import MitmVerif.Model.C22
 import Driver.Proto
 open MitmVerif Driver
 
-def c22Mode (s : String) : Option C22.Mode :=
-  match s with
-  | "regular" => some .regular | "transparent" => some .transparent | "upstream" => some .upstream
-  | "reverse" => some .reverse | "socks5" => some .socks5 | "dns" => some .dns
-  | "wireguard" => some .wireguard | "local" => some .local | "tun" => some .tun
-  | _ => none
+def c22Mode (s : String) : Option C22.Mode := Gen.C22.Mode.ofName s
 
 def c22Bool (s : String) : Option Bool :=
   match s with | "1" => some true | "0" => some false | _ => none
@@ -28,6 +23,17 @@ def c22Step (line : String) : String :=
       c22Verdict (C22.verdict peer m bg bp) ++ " " ++
         ",".intercalate ((C22.clientTrace peer m bg bp).map c22Ev)
     | _, _, _, _ => "bad-op"
+  | ["cls", fam, n] =>
+    -- class by interval table and by membership in the interpreter's network constants
+    match n.toNat? with
+    | some n =>
+      let a : Option C22.Addr := if fam == "4" then some (.v4 n) else if fam == "6" then some (.v6 n none) else none
+      match a with
+      | some a =>
+        let f := fun (c : Gen.C22.Cls) => s!"{c.loop},{c.priv},{c.glob}"
+        f (C22.classify a) ++ " " ++ f (C22.memberCls a)
+      | none => "bad-op"
+    | none => "bad-op"
   | ["parse", h] =>
     match hexOr h with
     | some t =>
